@@ -551,8 +551,9 @@ static void run_explore(void)
 	if (vk_opt("d4", &v)) d4 = atoi(v);
 	if (vk_opt("d8", &v)) d8 = atoi(v);
 	if (vk_opt("d16", &v)) d16 = atoi(v);
-	vt_cap = (size_t)1 << (vk_thorough ? 24 : 22);
-	if (vk_opt("vt", &v)) vt_cap = (size_t)1 << atoi(v);
+	size_t vt_max = (size_t)1 << (vk_thorough ? 26 : 22);
+	if (vk_opt("vt", &v)) vt_max = (size_t)1 << atoi(v);
+	vt_cap = vt_max;
 	int vis_all = vk_opt("visall", &v);
 	vt_key = calloc(vt_cap, 8); vt_bud = calloc(vt_cap, 1);
 	frames = calloc(maxdepth, sizeof *frames);
@@ -570,6 +571,7 @@ static void run_explore(void)
 		free(pre_img); pre_img = malloc(arena_size);
 		int dmax = L <= 4 ? d4 : L <= 8 ? d8 : d16;
 		NLAM = vk_thorough && L <= 4 && !vk_opt("lam8", &v) ? 14 : 8;
+		vt_cap = L >= 8 ? vt_max : (vt_max > ((size_t)1 << 24) ? (size_t)1 << 24 : vt_max);     /* untouched pages of the big table cost nothing */
 		if (vk_want_trace) dmax = 0;
 		if (public_entry && dmax > 1) dmax = 1;
 		for (int d = 0; d <= dmax; d++) {
